@@ -15,6 +15,7 @@ EXTENDS Naturals, Sequences, FiniteSets, TLC, Json
 CONSTANTS N,           \* window width in bits
           OorD,        \* offsets d beyond len() used for out-of-range accesses
           UpdIdx       \* indices used inside multi-write update closures
+CONSTANT SampleT
 
 VARIABLES bits,        \* [0..N-1 -> BOOLEAN]
           purpose,     \* "revocation" | "suspension" (fixed per behaviour)
@@ -118,5 +119,6 @@ StepLaws ==
 StepProp == [][StepLaws]_vars
 
 View == <<bits, purpose>>
-EmitT == PrintT(<<"CASE", ToJson(last')>>)
+\* emit every transition (SampleT = 1) or a random 1/SampleT of them (all are model-checked either way)
+EmitT == RandomElement(1..SampleT) # 1 \/ PrintT(<<"CASE", ToJson(last')>>)
 =============================================================================
